@@ -155,7 +155,7 @@ def gen_unary():
 
 def gen_deep():
     out = []
-    for depth in (10, 100, 400):
+    for depth in (10, 100, 300, 400, 499, 600, 700, 900, 990):
         e = ("var", "a")
         for _ in range(depth):
             e = ("bin", "+", ("var", "b"), e)          # right-nested: needs parentheses in infix
